@@ -21,9 +21,9 @@
 (*                   segments consumed so far and the parameters bound on the abandoned     *)
 (*                   branch are returned (code before the fix); FALSE: the path of the      *)
 (*                   wildcard node that matched and the parameters bound above it           *)
-(*   WildHostCheck   TRUE: a wildcard child is remembered as fallback only when the URL     *)
-(*                   part being consumed is of its kind (a path wildcard does not swallow   *)
-(*                   host labels; repaired code); FALSE: always (code before the fix:       *)
+(*   WildHostCheck   TRUE: a wildcard child written as a path segment is not remembered as  *)
+(*                   fallback while a host label is consumed (a path wildcard does not      *)
+(*                   swallow host labels; repaired code); FALSE: always (before the fix:    *)
 (*                   a.com/* answered for a.com.evil.net/x)                                 *)
 EXTENDS UrlPattern, TLC
 
@@ -76,7 +76,7 @@ LookupNode(t, parts) ==
               ELSE Res(FALSE, cur, params, up)
           ELSE
             LET pt   == parts[i]
-                remW == hasW /\ (~WildHostCheck \/ t.host[wc] = pt.h)
+                remW == hasW /\ (~WildHostCheck \/ t.host[wc] \/ ~pt.h)
                 fw2  == IF remW THEN wc ELSE fw
                 fwU2 == IF remW THEN wcUp ELSE fwUp
                 fwP2 == IF remW THEN params ELSE fwPar
